@@ -18,6 +18,7 @@ Oracle of the property, on the real objects only (no model involved): `oracle_ce
 from __future__ import annotations
 
 import inspect
+import re
 import json
 import math
 from collections import Counter
@@ -1335,6 +1336,89 @@ def main(run: core.Run) -> None:
             translation_failures.append((f"Opset{N}", op, f"{kind}: exporting {name} raised {type(ex).__name__}: {str(ex)[:200]}"))
     scriptgen.release(mod10)
     lap("exported model means the class used (explicit opset_version, mixed classes)")
+    # ---------------- T11: converter default opset / exported imports vs the model `convert` + `exportImports`
+    ML = "ai.onnx.ml"
+    POOL = [("", 11, "opset11", "Relu"), ("", 13, "opset13", "Relu"), ("", 18, "opset18", "Relu"), ("", 18, "opset18", "Identity"),
+            (ML, 3, "opset_ai_onnx_ml3", "Scaler"), (ML, 2, "opset_ai_onnx_ml2", "Binarizer"), (ML, 3, "opset_ai_onnx_ml3", "Normalizer")]
+    DECL = [None, ("", 11, "opset11"), ("", 13, "opset13"), ("", 18, "opset18"), (ML, 3, "opset_ai_onnx_ml3")]
+    HDR11 = "from onnxscript.onnx_opset import opset11, opset13, opset18, opset_ai_onnx_ml2, opset_ai_onnx_ml3\n"
+    cur_ver = int(real.defs.onnx_opset_version())
+    conv_cases = []
+    # directed: every declared option x {one class, same class twice, two '' versions, ml only, ml two versions, implicit first/last}
+    directed_bodies = [[0], [0, 0], [0, 1], [1, 0], [2, 3], [4], [4, 4], [4, 5], [5, 4, 0], [4, "i"], ["i", 1], ["i"], [0, "i", 0], [4, 0, 5, "i"], [2, 4, 1]]
+    for decl in DECL:
+        for body in directed_bodies:
+            conv_cases.append((decl, body))
+    for _ in range(run.size(60, 600)):
+        body = [("i" if run.rng.random() < 0.15 else run.rng.randrange(len(POOL))) for _ in range(run.rng.randint(1, 5))]
+        conv_cases.append((run.rng.choice(DECL), body))
+    conv_lines, conv_exp, conv_src = [], [], []
+    for ci, (decl, body) in enumerate(conv_cases):
+        lines_, evs = [], []
+        for ev in body:
+            if ev == "i":
+                lines_.append("    y = -y")
+                evs.append("i")
+            else:
+                d, v, oname, opn = POOL[ev]
+                lines_.append(f"    y = {oname}.{opn}(y)")
+                evs.append(f"c:{enc(d)}:{v}")
+        deco = "@script()" if decl is None else f"@script(default_opset={decl[2]})"
+        src = f"{deco}\ndef k{ci}(x: FLOAT[2,3]):\n    y = x\n" + "\n".join(lines_) + "\n    return y\n"
+        with _warnings.catch_warnings(record=True) as wlist:
+            _warnings.simplefilter("always")
+            fn11, err11, mod11 = scriptgen.compile_functions([(f"k{ci}", src)], header_extra=HDR11)
+        scriptgen.release(mod11)
+        conflicts = []
+        for w in wlist:
+            mm = re.match(r"Version conflict: domain: '([^']*)', versions (\d+) and (\d+) used\.", str(w.message))
+            if mm:
+                conflicts.append(f"{enc(mm.group(1))}:{mm.group(2)}:{mm.group(3)}")
+        for opt in (None, 15):
+            if f"k{ci}" in err11:
+                cls_, msg_ = err11[f"k{ci}"]
+                if "Two distincts opset were used" in msg_:
+                    exp = "ERR:twoOpsets"
+                elif "default_opset must be specified" in msg_:
+                    exp = "ERR:noDefault"
+                else:
+                    exp = f"ERR:other:{cls_}:{msg_[:60]}"
+                stats["conv_" + exp.split(":")[1]] += 1
+            else:
+                try:
+                    mp = fn11[f"k{ci}"].to_model_proto(opset_version=opt) if opt is not None else fn11[f"k{ci}"].to_model_proto()
+                    imps = [(o.domain, int(o.version)) for o in mp.opset_import]
+                    exp = "ok " + " ".join(f"{enc(d)}:{v}" for d, v in imps) + " | " + " ".join(conflicts)
+                    stats["conv_ok"] += 1
+                    if conflicts:
+                        stats["conv_ok_with_version_conflict_warning"] += 1
+                    # the clause itself, on the real export: every default-domain class called in the body is the '' import;
+                    # the option is used only when nothing of the default domain was emitted
+                    used = sorted({POOL[ev][1] for ev in body if ev != "i" and POOL[ev][0] == ""})
+                    got = dict(imps).get("")
+                    has_default_node = any(nd.domain == "" for nd in mp.graph.node)
+                    if used and got not in used:
+                        oracle_failures.append((f"Opset{used[0]}", "<export>", [f"body calls default-domain opset class(es) {used}, exported '' import is {got} (opset_version={opt}); script:\n{src}"]))
+                    elif not has_default_node and got != (opt if opt is not None else cur_ver):
+                        oracle_failures.append(("OnnxFunction", "<export>", [f"no default-domain node, opset_version={opt}, exported '' import is {got}; script:\n{src}"]))
+                    if not has_default_node:
+                        stats["conv_option_applies"] += 1
+                    elif opt is not None:
+                        stats["conv_option_ignored"] += 1
+                except Exception as ex:
+                    exp = f"ERR:export:{type(ex).__name__}"
+            decl_tok = "-" if decl is None else f"{enc(decl[0])}:{decl[1]}"
+            conv_lines.append(f"conv {decl_tok} {'-' if opt is None else opt} {cur_ver} " + " ".join(evs))
+            conv_exp.append(exp)
+            conv_src.append(src)
+    if drv is not None:
+        outs = drv.ask(conv_lines)
+        for ln, e, o, src in zip(conv_lines, conv_exp, outs, conv_src):
+            if e.rstrip() != o.rstrip():
+                tie_broken.append(f"converter opset imports [{ln}]: real `{e}` vs model `{o}`; script:\n{src}")
+                break
+    stats["conv_cases"] = len(conv_lines)
+    lap("converter default opset / exported imports")
     # ---------------- T6: the generator in /repo/opgen, run in-process, regenerates exactly these classes
     generator_failures: list[tuple[str, str, list[str]]] = []
     generator_stale: list[str] = []
@@ -1470,7 +1554,8 @@ def main(run: core.Run) -> None:
                     "hist_domain_my.domain", "executed_trim_yes", "executed_trim_no", "sep_ok_nofill", "sep_ok_fill",
                     "sep_inner_placeholder", "sep_err_missingRequired", "sep_err_unexpectedKw", "sep_err_tooManyArgs", "translation_equal_default",
                     "translation_equal_ai.onnx.ml", "t10_explicit_version_exports", "t10_decorator_version_exports", "t10_equal",
-                    "t10_import_means_class", "t10_mixed_refused", "t10_option_applies", "deprecated_stub_raises", "cell_stub", "prep_trimmed_0", "prep_trimmed_1", "prep_trimmed_3", "cell_SM", "cell_--"]
+                    "t10_import_means_class", "t10_mixed_refused", "t10_option_applies", "conv_ok", "conv_twoOpsets", "conv_noDefault",
+                    "conv_ok_with_version_conflict_warning", "conv_option_applies", "conv_option_ignored", "deprecated_stub_raises", "cell_stub", "prep_trimmed_0", "prep_trimmed_1", "prep_trimmed_3", "cell_SM", "cell_--"]
         zero = [k for k in required if not stats[k]]
         # a zero counter with a clean verdict means the generator degenerated; with a violation already printed it is a consequence
         if zero and not run.violations:
